@@ -97,7 +97,11 @@ func randInt(f, t int64) (string, error) {
 		t = defaultMaxRandValue
 	}
 	if t == f {
-		f = t + defaultMaxRandValue
+		t = f + defaultMaxRandValue
+	}
+	if t-f <= 0 {
+		// t == f near MaxInt64, or bounds too far apart for int64.
+		return "", fmt.Errorf("randInt: invalid range [%d, %d)", f, t)
 	}
 	n := rand.Int63n(t - f)
 	n += f
